@@ -14,3 +14,4 @@ def run(prog: Program, rep: Report, tier: str) -> None:
     rep.exhaustive = True
     semiring_laws.run_laws(prog, rep, thorough=(tier == 'thorough'))
     wrappers.check_wrappers(prog, rep, 'C08-L9 representation-agreement', only_semiring_used=True)
+    wrappers.check_binary(prog, rep, 'C08-L9 representation-agreement (pattern-aware binary ops)')
